@@ -217,6 +217,40 @@ def work_switched(T):
     if any(x[2].startswith('exc') for x in la if len(x) == 4 and x[1] in ('add', 'add-again', 'set-instance', 'unset', 'read')):
         first = next(x for x in la if len(x) == 4 and x[2].startswith('exc') and x[1] != 'set-value')
         vio.append({'scope': T, 'kind': 'unchecked-raises', 'key': [T, 'shortcut', first[0], first[1]], 'observed': first[2]})
+    # (5) the reverse switch: children supplied while checking was off, in an order the checked twin accepts, then
+    # xsd_check = True: from then on the element must be indistinguishable from the twin (views, serialisation or
+    # missing-children verdict, acceptance of every further child)
+    def observe(e):
+        out = [tuple(c.name for c in e.get_children(ordered=True)), tuple(c.name for c in e.get_children(ordered=False)),
+               serialise(e)[:3]]
+        return out
+    for k in (1, 2, 3):
+        for w in itertools.product(sigma, repeat=k):
+            twin = build(T, [('A', a) for a in w])
+            if not all(o.ok for o in twin.outcomes):
+                continue
+            n += 1
+            def switched():
+                e = impl.fresh(T, check=False)
+                for a in w:
+                    e.add_child(impl.child(a))
+                e.xsd_check = True
+                return e
+            o = impl.call(switched)
+            if not o.ok:
+                vio.append({'scope': T, 'kind': 'unchecked-differs-from-checked', 'key': [T, 'switched-on-raises', list(w)],
+                            'observed': o.as_json()})
+                continue
+            got, exp = observe(o.value), observe(twin.el)
+            for a in sigma:
+                e2 = impl.call(switched).value
+                t2 = build(T, [('A', x) for x in w])
+                got.append((a, impl.call(e2.add_child, impl.child(a)).brief(), serialise(e2)[:3]))
+                exp.append((a, impl.call(t2.el.add_child, impl.child(a)).brief(), serialise(t2.el)[:3]))
+            if got != exp:
+                d = next((x, y) for x, y in zip(got, exp) if x != y)
+                vio.append({'scope': T, 'kind': 'unchecked-differs-from-checked', 'key': [T, 'switched-on-vs-constructed', list(w)],
+                            'observed': [str(d[0])[:200], str(d[1])[:200]]})
     return vio, n
 
 
